@@ -13,6 +13,10 @@ CURVE25519 = 7237005577332262213973186563042994240857116359379907606001950938285
 REAL_FIELDS = {"bn128": BN128, "bls12-381": BLS12_381, "curve25519": CURVE25519}
 
 
+class StaleVariable(Exception):
+    pass
+
+
 class LC:
     """Immutable linear combination {var: coeff}; var 0 is the constant one."""
     __slots__ = ("lc",)
@@ -50,6 +54,7 @@ def make(p=BN128, name="pysnark.nobackend", sites=False):
     m.__file__ = __file__
     m.IS_RECORDER = True
     m.LC = LC
+    m.StaleVariable = StaleVariable
     m.p = p
     m.vars = []      # (kind, value)            var i (1-based) is vars[i-1]
     m.sites = []     # creation site per variable, only when m.want_sites
@@ -103,7 +108,11 @@ def make(p=BN128, name="pysnark.nobackend", sites=False):
         s = 0
         if asg is None:
             vs = m.vars
+            nv = len(vs)
             for k, c in d.items():
+                if k > nv:
+                    # a wire of an EARLIER execution (state kept by the library across resets): no value in this run
+                    raise StaleVariable("linear combination mentions variable %d, this run has %d" % (k, nv))
                 s += c * (1 if k == 0 else vs[k - 1][1])
         else:
             for k, c in d.items():
@@ -115,8 +124,11 @@ def make(p=BN128, name="pysnark.nobackend", sites=False):
         p_ = m.p
         for i in range(start, len(m.cons)):
             a, b, c = m.cons[i]
-            if (ev(a, asg) * ev(b, asg) - ev(c, asg)) % p_:
-                bad.append(i)
+            try:
+                if (ev(a, asg) * ev(b, asg) - ev(c, asg)) % p_:
+                    bad.append(i)
+            except StaleVariable:
+                bad.append(i)       # a constraint over a variable that does not exist is not satisfied by the witness
         return bad
 
     def canon_lc(d):
